@@ -1,6 +1,7 @@
 package simkit
 
 import (
+	"strings"
 	"encoding/json"
 	"fmt"
 	"os"
@@ -100,6 +101,10 @@ func WorkerMain(t *testing.T) {
 	if h == nil {
 		fmt.Fprintf(os.Stderr, "unknown harness %q (have %v)\n", id, IDs())
 		os.Exit(2)
+	}
+
+	if h.Setup != nil {
+		h.Setup()
 	}
 
 	out := os.Getenv("VERIF_OUT")
@@ -231,8 +236,17 @@ func WorkerMain(t *testing.T) {
 		idx := from + uint64(n)*stride
 		rs := Mix(seed, idx)
 		tape := NewTapeFromSeed(rs)
-		o := Execute(t, h, rs, idx, tier, tape, false, isKnown)
+		dump := os.Getenv("VERIF_DUMP")
+		if dump != "" {
+			SetEventCap(2000000)
+		}
+		// development aid: full event logs per run, for diffing two processes
+		o := Execute(t, h, rs, idx, tier, tape, dump != "", isKnown)
 		progress.Add(1)
+
+		if dump != "" {
+			_ = os.WriteFile(fmt.Sprintf("%s/run-%d.log", dump, idx), []byte(strings.Join(o.Run.Events, "\n")+"\n"), 0o600)
+		}
 
 		r := o.Run
 
